@@ -174,6 +174,23 @@ def run(res, tier, seed, driver_ok):
             Fb = np.asarray(Fb.getData() if hasattr(Fb, 'getData') else Fb, dtype=float).reshape(-1)
             if np.max(np.abs(Fb - F)) > 1e-6 * max(1.0, np.linalg.norm(F)):
                 bad('staticForcesInv', 'mapping torques back does not return the wrench at a full-rank configuration', inp, {'diff': G.maxdiff(Fb, F)})
+        # 4a. argument forms: the same queries with the joint vector given BY KEYWORD while the arm's stored state is somewhere else
+        if n_ % 3 == 0:
+            try:
+                with contextlib.redirect_stdout(io.StringIO()):
+                    arm.FK(np.array([rnd.uniform(mins[i] * 0.5, maxs[i] * 0.5) for i in range(nj)]))
+                    vk = np.asarray(arm.velocityAtEndEffector(qd.copy(), theta=th.copy()), dtype=float).reshape(-1)
+                    tk = np.asarray(arm.staticForces(Wrench(F.copy().reshape((6, 1))), theta=th.copy()), dtype=float).reshape(-1)
+                    Jk = np.asarray(arm.jacobian(theta=th.copy()), dtype=float)
+                    Jbk = np.asarray(arm.jacobianBody(theta=th.copy()), dtype=float)
+                    arm.FK(th.copy())
+                stats['keyword_forms'] = stats.get('keyword_forms', 0) + 1
+                for nm_, got_, want_ in (('velocityAtEndEffector', vk, v), ('staticForces', tk, tau), ('jacobian', Jk, Js), ('jacobianBody', Jbk, Jb)):
+                    if got_.shape != np.asarray(want_).shape or np.max(np.abs(got_ - want_)) > 1e-9 * scale * 10:
+                        bad('keyword-form:%s' % nm_, '%s(..., theta=q) from another stored state differs from the same query with q given positionally' % nm_, inp,
+                            {'diff': G.maxdiff(got_, np.asarray(want_)) if got_.shape == np.asarray(want_).shape else 'shape'})
+            except Exception as e:
+                bad('raises:keyword-form:%s' % type(e).__name__, 'a query with the joint vector given by keyword raised', inp, repr(e))
         # 4b. the same clause next to (not at) a singularity: one joint is walked towards the configuration where the Jacobian loses rank
         # until the condition number lies in (1e3, 1e4) — full rank, but a truncated pseudo-inverse would drop the weakest direction
         if nj >= 6 and n_ % 2 == 0:
